@@ -606,6 +606,10 @@ class DilatedConnectionProtocol(Protocol):
     def disconnect(self):
         self.transport.loseConnection()
 
+    def abort(self):
+        # like disconnect(), but without waiting for buffered data
+        self.transport.abortConnection()
+
     # called by Inbound, when a subchannel's application asks us to stop
     # (or resume) delivering data
     def pauseProducing(self):
